@@ -9,6 +9,7 @@ import (
 	"path/filepath"
 	"testing"
 
+	"github.com/mk6i/mkdb/storage"
 	"pgregory.net/rapid"
 
 	"verif/harness/gen"
@@ -19,7 +20,11 @@ import (
 
 type c02Segment struct {
 	Stmts []model.Stmt `json:"stmts"`
-	End   string       `json:"end"` // crash | shutdown
+	End   string       `json:"end"` // crash | shutdown | tornflush
+	// tornflush: the process dies in the middle of a timer flush that started
+	// after the last statement: only the pages selected by TornMask (bit i =
+	// i-th dirty page in offset order) reached the file, the header did not.
+	TornMask uint64 `json:"torn_mask,omitempty"`
 }
 
 type c02Case struct {
@@ -73,8 +78,12 @@ func c02Gen(rt *rapid.T) c02Case {
 				stmts[i].FlushAfter = stmts[i].Kind == "create"
 			}
 		}
-		end := rapid.SampledFrom([]string{"crash", "crash", "crash", "shutdown"}).Draw(rt, "end")
-		c.Segments = append(c.Segments, c02Segment{Stmts: stmts, End: end})
+		end := rapid.SampledFrom([]string{"crash", "crash", "crash", "shutdown", "tornflush", "tornflush"}).Draw(rt, "end")
+		seg := c02Segment{Stmts: stmts, End: end}
+		if end == "tornflush" {
+			seg.TornMask = rapid.Uint64().Draw(rt, "tornmask")
+		}
+		c.Segments = append(c.Segments, seg)
 	}
 	return c
 }
@@ -182,6 +191,56 @@ func c02Run(c c02Case, st *vlib.Stats) string {
 			}
 			eng.Sess.RelationService = nil
 			labels = append(labels, "end-shutdown")
+		} else if seg.End == "tornflush" {
+			// a timer tick starts after the last statement and the process dies inside it
+			tbl := filepath.Join(dir, "data", DBName, "tbl")
+			wal := filepath.Join(dir, "data", DBName, "wal")
+			var rec *flushRec
+			storage.VerifHook = func(point string, arg uint64) {
+				switch point {
+				case "flush.begin":
+					pre, _ := os.ReadFile(tbl)
+					w, _ := os.ReadFile(wal)
+					rec = &flushRec{pre: pre, wal: w, hdrAt: -1}
+				case "page.write":
+					if rec != nil {
+						rec.order = append(rec.order, arg)
+					}
+				case "flush.end":
+					if rec != nil && rec.post == nil {
+						rec.post, _ = os.ReadFile(tbl)
+					}
+				}
+			}
+			ferr := eng.Flush()
+			storage.VerifHook = nil
+			if ferr != nil || rec == nil || rec.post == nil {
+				return fmt.Sprintf("flush failed: %v", ferr)
+			}
+			eng.Crash(true)
+			D := rec.dirty()
+			var S []uint64
+			for bi, o := range D {
+				if seg.TornMask&(1<<uint(bi%64)) != 0 {
+					S = append(S, o)
+				}
+			}
+			if rec.hasFresh() && len(S) > 0 && len(S) < len(D) {
+				// region of the listed finding C04-torn-flush-fresh-pages: steer to the nearest state outside it
+				st.Exclude(1)
+				if seg.TornMask&(1<<63) != 0 {
+					S = D
+				} else {
+					S = nil
+				}
+			}
+			if err := rec.compose(dir, S, false); err != nil {
+				return "compose failed: " + err.Error()
+			}
+			labels = append(labels, "end-tornflush")
+			if len(S) > 0 && len(S) < len(D) {
+				labels = append(labels, "end-tornflush-proper-subset")
+			}
 		} else {
 			eng.Crash(true)
 			labels = append(labels, "end-crash")
